@@ -254,7 +254,10 @@ def register_dataclass_type_with_jax_tree_util(data_class):
         in instance.__dict__.
     """
     def flatten(d):
-        keys, values = zip(*sorted(d.__dict__.items()))
+        # Only declared fields are constructor arguments; derived attributes (e.g. the lazily
+        # filled lnZ and mu of a GaussianMeasure) are recomputed and must not be passed to it.
+        fields = d.__dataclass_fields__
+        keys, values = zip(*sorted((k, v) for k, v in d.__dict__.items() if k in fields))
         return values, keys
 
     unflatten = lambda keys, values: data_class(**dict(zip(keys, values)))
